@@ -6,7 +6,7 @@ use proptest::strategy::BoxedStrategy;
 use serde_json::json;
 
 use crate::case::{ops_sample, Case, CaseError, Env, Failure, Tier};
-use crate::damage::{aimed_damage, apply, craft_batch, craft_entry, craft_frame, live_frames, random_inplace_damage, to_hex, written_extent, CDamage, Extras};
+use crate::damage::{apply, craft_batch, craft_entry, craft_frame, live_frames, random_inplace_damage, to_hex, written_extent, CDamage, Extras};
 use crate::exec::Exec;
 use crate::iotrace::Image;
 use crate::model::{describe_state, Bytes, State};
@@ -24,6 +24,7 @@ fn gen_cfg(tier: Tier) -> GenCfg {
     cfg.w_restart = 5;
     cfg.w_delete = 5;
     cfg.w_len.huge = 0;
+    cfg.w_recreate_motif = 12;
     cfg.w_aligned_batch = 14;
     cfg.w_len.fileish = 8;
     cfg
@@ -274,7 +275,7 @@ impl Property for C08 {
                         let aimed = !live.is_empty() && splitmix(&mut word_state) % 2 == 0;
                         let damage = if aimed {
                             let frame = &live[(splitmix(&mut word_state) % live.len() as u64) as usize];
-                            let (damage, field) = aimed_damage(frame, &image, splitmix(&mut word_state));
+                            let (damage, field) = crate::damage::aimed_damage_in_context(frame, &live, &image, splitmix(&mut word_state));
                             fields.push(field.name());
                             Some(damage)
                         } else {
